@@ -1629,6 +1629,126 @@ def render_scipy() -> str:
 
 
 # ------------------------------------------------------------------------------------------------
+# effects / access certificate of the six routines (round 6) -> Gen/HarmonicsEffects.lean
+# ------------------------------------------------------------------------------------------------
+C08_FUNCTIONS = ("generate_real_spherical_harmonics_scipy", "generate_real_spherical_harmonics", "generate_derivative_real_spherical_harmonics",
+                 "solid_harmonics", "convert_derivative_from_spherical_to_cartesian", "convert_cart_to_sph")
+_VIEW_CALLS = ("asarray", "asanyarray", "ascontiguousarray", "asfortranarray", "ravel", "reshape", "squeeze", "transpose", "atleast_1d", "atleast_2d",
+               "broadcast_to", "swapaxes", "moveaxis", "real", "imag", "array", "require", "expand_dims")
+_VIEW_METHODS = ("reshape", "ravel", "view", "squeeze", "transpose", "swapaxes", "astype", "real", "imag")
+_VIEW_ATTRS = ("T", "real", "imag", "flat", "base")
+_MUTATORS = ("sort", "fill", "resize", "put", "itemset", "partition", "setfield", "byteswap")
+
+
+def _effects_of(fn):
+    """(may-alias-an-argument names, names written in place, partial accesses of the points axis) of one function, from its AST.
+    Flow-insensitive and conservative: a name bound to a view-producing expression of an aliasing name (a subscript, `.T`, `np.asarray`
+    with or without `dtype=` - NumPy returns the argument itself when the type already matches - reshape, ravel, …) aliases; in-place writes
+    are subscript stores, augmented assignments, `out=` keywords and mutating methods."""
+    params = [a.arg for a in fn.args.args]
+    alias = set(params)
+
+    def may_view(e):
+        if isinstance(e, ast.Name):
+            return e.id in alias
+        if isinstance(e, ast.Attribute):
+            return e.attr in _VIEW_ATTRS and may_view(e.value)
+        if isinstance(e, ast.Subscript):
+            return may_view(e.value)
+        if isinstance(e, ast.IfExp):
+            return may_view(e.body) or may_view(e.orelse)
+        if isinstance(e, (ast.Tuple, ast.List)):
+            return any(may_view(x) for x in e.elts)
+        if isinstance(e, ast.Call):
+            f = e.func
+            if _np_attr(f, _VIEW_CALLS) and e.args:
+                return may_view(e.args[0])
+            if isinstance(f, ast.Attribute) and f.attr in _VIEW_METHODS:
+                return may_view(f.value)
+        return False
+
+    assigns = [n for n in ast.walk(fn) if isinstance(n, ast.Assign)]
+    changed = True
+    while changed:
+        changed = False
+        for a in assigns:
+            if may_view(a.value):
+                for t in a.targets:
+                    for nm in ([t] if isinstance(t, ast.Name) else list(t.elts) if isinstance(t, (ast.Tuple, ast.List)) else []):
+                        if isinstance(nm, ast.Name) and nm.id not in alias:
+                            alias.add(nm.id)
+                            changed = True
+    written = []
+
+    def base(e):
+        while isinstance(e, (ast.Subscript, ast.Attribute)):
+            e = e.value
+        return e.id if isinstance(e, ast.Name) else _src(e)
+
+    for n in ast.walk(fn):
+        if isinstance(n, ast.Assign):
+            for t in n.targets:
+                for x in ([t] if not isinstance(t, (ast.Tuple, ast.List)) else t.elts):
+                    if isinstance(x, (ast.Subscript, ast.Attribute)):
+                        written.append(base(x))
+        elif isinstance(n, ast.AugAssign):
+            written.append(base(n.target))
+        elif isinstance(n, ast.Call):
+            for kw in n.keywords:
+                if kw.arg == "out":
+                    written.append(base(kw.value))
+            if isinstance(n.func, ast.Attribute) and n.func.attr in _MUTATORS:
+                written.append(base(n.func.value))
+            if isinstance(n.func, ast.Attribute) and n.func.attr == "at" and n.args:   # np.add.at(x, …)
+                written.append(base(n.args[0]))
+    written = list(dict.fromkeys(written))
+    # the points axis: the 1-D angle arguments and every array whose creation shape ends with the number of points
+    counts = {a.targets[0].id for a in assigns if isinstance(a.targets[0], ast.Name) and _src(a.value) in ("len(theta)", "len(phi)")}
+    angle = {p for p in params if p in ("theta", "phi")} if counts or set(params) >= {"theta", "phi"} and "r" not in params else set()
+    ndim = {}
+    shape_nodes = set()
+    for a in assigns:
+        v = a.value
+        if isinstance(a.targets[0], ast.Name) and isinstance(v, ast.Call) and _np_attr(v.func, ("zeros", "empty", "ones")) and v.args and isinstance(v.args[0], ast.Tuple) \
+                and v.args[0].elts and isinstance(v.args[0].elts[-1], ast.Name) and v.args[0].elts[-1].id in counts:
+            ndim[a.targets[0].id] = len(v.args[0].elts)
+            shape_nodes.add(id(v.args[0].elts[-1]))
+    partial = []
+    for n in ast.walk(fn):
+        if isinstance(n, ast.Subscript) and isinstance(n.value, ast.Name):
+            idx = list(n.slice.elts) if isinstance(n.slice, ast.Tuple) else [n.slice]
+            if n.value.id in angle:
+                partial.append(_src(n))
+            elif n.value.id in ndim and len(idx) == ndim[n.value.id] and not _is_slice_all(idx[-1]):
+                partial.append(_src(n))
+        elif isinstance(n, ast.Name) and n.id in counts and isinstance(n.ctx, ast.Load) and id(n) not in shape_nodes:
+            partial.append(f"use of the number of points `{n.id}` outside an array shape (line {n.lineno - fn.lineno})")
+    return sorted(alias), written, list(dict.fromkeys(partial))
+
+
+def render_effects() -> str:
+    tree = ast.parse((SRC / "utils.py").read_text())
+    fns = {n.name: n for n in tree.body if isinstance(n, ast.FunctionDef)}
+    q = lambda xs: "[" + ", ".join('"' + x.replace("\\", "\\\\").replace('"', '\\"') + '"' for x in xs) + "]"
+    rows = []
+    for name in C08_FUNCTIONS:
+        if name not in fns:
+            raise Untranslatable(f"utils.{name} not found")
+        al, wr, pa = _effects_of(fns[name])
+        rows.append(f'  {{ name := "{name}",\n    mayAliasArgument := {q(al)},\n    writtenInPlace := {q(wr)},\n    partialPointsAccess := {q(pa)} }}')
+    return "\n".join([
+        HEADER.format(name="harmonics", source="src/grid/utils.py (the six routines of C08: which names may alias an argument, which are written in place, "
+                      "which accesses address only a part of the points axis)"),
+        "namespace GridVerif.Gen.HarmonicsEffects\n",
+        "/-- What the AST of one routine shows: the names that may refer to (a view of) an argument, the names written in place (subscript stores,\n"
+        "augmented assignments, `out=`, mutating methods), and the subscripts / uses of the point count that address only a part of the points axis. -/",
+        "structure Routine where\n  name : String\n  mayAliasArgument : List String\n  writtenInPlace : List String\n  partialPointsAccess : List String\n  deriving Repr\n",
+        "def routines : List Routine := [\n" + ",\n".join(rows) + "]\n",
+        "end GridVerif.Gen.HarmonicsEffects\n",
+    ])
+
+
+# ------------------------------------------------------------------------------------------------
 def render() -> str:
     tree = ast.parse((SRC / "utils.py").read_text())
     fns = {n.name: n for n in tree.body if isinstance(n, ast.FunctionDef)}
@@ -1659,10 +1779,13 @@ def render() -> str:
 
 
 def generate():
+    # the effects / access certificate is a plain AST analysis: it is written first, so that a source the statement-wise translators
+    # below cannot carry still regenerates it (its theorems, Props/C08/Effects.lean, are then re-decided on the changed source)
+    c0, d0 = write_if_changed("HarmonicsEffects.lean", render_effects())
     t1, t2 = render(), render_scipy()   # both before anything is written: a routine that cannot be carried leaves both files as they are
     c1, d1 = write_if_changed("Harmonics.lean", t1)
     c2, d2 = write_if_changed("HarmonicsScipy.lean", t2)
-    return c1 or c2, d1 + d2
+    return c0 or c1 or c2, d0 + d1 + d2
 
 
 if __name__ == "__main__":
